@@ -245,7 +245,10 @@ def r6_order(ctx, A, rule="C03.R6"):
     """no reordering / removing method on any container of Range<u64> anywhere in the crate"""
     allowed = {"push", "new", "is_empty", "len", "iter", "deref", "index", "into_vec", "clone", "with_capacity",
                "as_slice", "into_iter", "next", "try_fold", "drop", "eq", "fmt", "as_ref", "borrow", "first", "last", "get",
-               "ne", "assert_fields_are_eq", "debug_tuple_field1_finish"}
+               "ne", "assert_fields_are_eq", "debug_tuple_field1_finish",
+               # read-only consumers of an iterator over the list (they build no list; typical in assertions and logging)
+               "all", "any", "count", "fold", "sum", "for_each", "map", "position", "find", "max", "min", "max_by_key", "min_by_key",
+               "new_debug", "new_display", "copied", "cloned", "by_ref", "size_hint", "is_sorted", "is_sorted_by_key", "windows", "contains"}
     n = 0
     for b, i, t in ctx.facts.all_calls():
         if not t["args"]:
